@@ -3,7 +3,7 @@
    announcement over the old channel record gives the new one) is checked on every run by the
    correspondence oracle, not proved here: see DESIGN.md section 5 (C08). *)
 From IRC Require Import Str Wild Glob Parse Reply State Handlers.
-From IRCP Require Import ModeP.
+From IRCP Require Import ModeP AnnounceP.
 From stdpp Require Import gmap.
 
 Section C08.
@@ -62,9 +62,32 @@ Theorem C08_query_inert : forall s c target nick co rk r,
   process_mode_channel cfg i s c target nick co rk [] = Ok r -> h_sh r = s /\ h_conn r = c.
 Proof. exact (process_mode_channel_query cfg i). Qed.
 
+(* "exactly as announced", the flag part: for a channel MODE with any number of groups, letters and
+   sign switches, the '+' and '-' groups accumulated for the announcement satisfy - with respect to
+   the channel the command started from - : a flag letter in the '+' group is set in the new channel,
+   one in the '-' group is clear, (hence none is in both), and a flag that is not announced is as it
+   was; the new channel is stored, and the announcement goes to every member of it *)
+Theorem C08_flags_as_announced : forall s c target nick co rk modes r,
+  is_empty modes = false -> process_mode_channel cfg i s c target nick co rk modes = Ok r ->
+  exists m, h_sh r = set_chans (fun cs => <[target := ms_chan m]> cs) s /\ ann_inv co m /\
+    match mode_announcement target m with
+    | Some body => exists ann, send_all (h_sh r) (member_names (ms_chan m)) (from (c_source c) body) = Ok ann /\
+                               h_out r = mine cfg i (ms_out m) ++ ann
+    | None => h_out r = mine cfg i (ms_out m)
+    end.
+Proof. exact (mode_channel_announced cfg i). Qed.
+
+Theorem C08_announcement_text : forall target m body, mode_announcement target m = Some body ->
+  exists rest, body = lit "MODE " ++ target ++ [c_space] ++ rest /\
+    (is_empty (ms_params m) = true ->
+       rest = (if is_empty (ms_set m) then [] else c_plus :: ms_set m) ++ (if is_empty (ms_unset m) then [] else c_minus :: ms_unset m)).
+Proof. exact announcement_text. Qed.
+
 End C08.
 
 Print Assumptions C08_outsider.
+Print Assumptions C08_flags_as_announced.
+Print Assumptions C08_announcement_text.
 Print Assumptions C08_insufficient_rank_changes_nothing.
 Print Assumptions C08_flag_applied.
 Print Assumptions C08_rank_applied.
